@@ -240,10 +240,22 @@ func runC06(env *core.Env) {
 		return true
 	}
 	add(&c06State{Key: "todo/", State: "todo", By: "", Store: init})
+	// second root, same items: a history stamped decades ahead of this machine's clock (written on a host with a fast
+	// clock, or the clock was set back since). Every request explored from here is stamped earlier than the events
+	// already in the log; states reached from it carry the prefix "F:" so that the two explorations stay apart.
+	{
+		l := newSynLog()
+		l.t = l.t.AddDate(70, 0, 0)
+		l.Create(SynItem{ID: epic, Epic: true, Title: "E"})
+		l.Create(SynItem{ID: task, Title: "T"})
+		l.State(task, "blocked")
+		l.State(task, "todo")
+		add(&c06State{Key: "F:todo/", State: "todo", By: "", Store: core.Store{".ergo/plans.jsonl": l.Bytes(), ".ergo/lock": nil}})
+	}
 	var transitions, accepted, rejected int64
 	outcomes := newCounter()
 	samples := &sampleSet{max: 12}
-	frontier := []string{"todo/"}
+	frontier := []string{"todo/", "F:todo/"}
 	depth := 0
 	exhaustive := true
 
@@ -417,7 +429,11 @@ func runC06(env *core.Env) {
 			// successor state (the task T for set/claim; for `new` the new task is a second witness of the
 			// same abstract state space, so we continue from a store where T is unchanged)
 			if have && j.sh.Cmd != "new" && c06Invariant(got.State, got.ClaimedBy) {
-				ns := &c06State{Key: got.State + "/" + got.ClaimedBy, State: got.State, By: got.ClaimedBy, Store: after, Depth: depth + 1,
+				era := ""
+				if strings.HasPrefix(cur.Key, "F:") {
+					era = "F:"
+				}
+				ns := &c06State{Key: era + got.State + "/" + got.ClaimedBy, State: got.State, By: got.ClaimedBy, Store: after, Depth: depth + 1,
 					Path: append(append([]string{}, cur.Path...), req.Shell())}
 				if add(ns) {
 					nmu.Lock()
@@ -449,7 +465,7 @@ func runC06(env *core.Env) {
 		"abstract_states": keys, "request_shapes": len(shapes), "accepted": accepted, "rejected": rejected,
 		"distinct_outcome_classes": outcomes.len(), "unconfirmed_candidates": unconfirmed.Load(),
 		"concurrent":  concCov,
-		"explanation": "BFS to fixpoint over (state, claimant) of one task under every request shape (state x claim x --agent x input mode x command), each transition = one real command through the in-process server; oracle = literal transition table + claim rule; plus every shape against an epic",
+		"explanation": "BFS to fixpoint (from a fresh store and from the same items with a history stamped 70 years ahead of the clock) over (state, claimant) of one task under every request shape (state x claim x --agent x input mode x command), each transition = one real command through the in-process server; oracle = literal transition table + claim rule; plus every shape against an epic",
 	}
 	env.Finish("model_checking", cov, []string{
 		"abstract state = (state, claimant) of the task: set/claim decisions read nothing else of the task",
